@@ -26,16 +26,25 @@ def d1_encap(ck, facts, adt=PHASE, ctor_fn='phase::Phase::new', normaliser='phas
     cons = rencap.constructions(facts, adt)
     for key, node in cons:
         f = facts['fns'][key]
-        ok = key == ctor_fn
+        ok = key in (ctor_fn, normaliser)
         why = ''
         if not ok:
             why = '%s literal outside the sanctioned constructor %s' % (adt, ctor_fn)
+        elif key == normaliser:
+            why = ''        # the values the normaliser itself returns are the subject of the range rule (E3-range)
         else:
-            # the literal must be the receiver of the normaliser
+            # the literal must be the receiver of the normaliser, directly or through a local that is used for nothing else
             ok = False
             for c in hir.calls_to(f['hir'], normaliser):
-                if hir.strip(c['recv']) is node:
+                rc = hir.strip(c['recv'])
+                if rc is node:
                     ok = True
+                l = hir.local(rc)
+                if l:
+                    lets = [n for n in hir.nodes(f['hir']) if n.get('k') == 'Let' and n['pat'].get('k') == 'Bind' and n['pat']['id'] == l[1] and n.get('init') is not None and hir.strip(n['init']) is node]
+                    uses = [n for n in hir.nodes(f['hir']) if n.get('k') == 'Path' and n['res'].get('k') == 'Local' and n['res'].get('id') == l[1]]
+                    if lets and len(uses) == 1:
+                        ok = True
             why = 'the %s literal in %s does not flow into %s' % (adt, ctor_fn, normaliser)
         res.append(('literal/%s' % key, ok, key, why))
     aggs = set(rencap.mir_aggregates(facts, adt))
@@ -156,6 +165,188 @@ PRED_REF = {
 }
 
 
+class _NoPred(Exception):
+    pass
+
+
+class _Ret(Exception):
+    def __init__(self, v):
+        self.v = v
+
+
+def pred_eval(facts, key, r, depth=0):
+    """value of a classification predicate of Phase on the stored rational r (a Fraction), by interpreting its body; raises _NoPred when a construct is not understood"""
+    f = facts['fns'][key]
+
+    def ev(e, env):
+        e0 = e
+        e = hir.strip(e)
+        k = e.get('k')
+        v = hir.lit_int(e)
+        if v is not None:
+            return v
+        b = hir.lit_bool(e)
+        if b is not None:
+            return b
+        l = hir.local(e)
+        if l:
+            if l[0] == 'self':
+                return ('phase', r)
+            if l[1] in env:
+                return env[l[1]]
+            raise _NoPred('local ' + l[0])
+        if k == 'Field' and e['name'] == 'r':
+            b2 = ev(e['e'], env)
+            if isinstance(b2, tuple) and b2[0] == 'phase':
+                return b2[1]
+        if k == 'Unary' and e['op'] == 'Not':
+            return not ev(e['e'], env)
+        if k == 'Unary' and e['op'] == 'Neg':
+            return -ev(e['e'], env)
+        if k == 'Binary':
+            op = e['op']
+            if op == 'And':
+                return bool(ev(e['l'], env)) and bool(ev(e['r'], env))
+            if op == 'Or':
+                return bool(ev(e['l'], env)) or bool(ev(e['r'], env))
+            a, b2 = ev(e['l'], env), ev(e['r'], env)
+            if isinstance(a, tuple) or isinstance(b2, tuple):
+                raise _NoPred('comparison of phases')
+            fn = {'Eq': lambda: a == b2, 'Ne': lambda: a != b2, 'Lt': lambda: a < b2, 'Le': lambda: a <= b2, 'Gt': lambda: a > b2, 'Ge': lambda: a >= b2,
+                  'Add': lambda: a + b2, 'Sub': lambda: a - b2, 'Mul': lambda: a * b2, 'Rem': lambda: a % b2 if b2 else None,
+                  'Div': lambda: (Fr(a) / Fr(b2)) if (isinstance(a, Fr) or isinstance(b2, Fr)) and b2 else None}.get(op)
+            if fn:
+                return fn()
+        if k == 'Call':
+            c = hir.callee(e) or ''
+            if c.endswith('::new') and len(e['args']) == 2 and 'Ratio' in (c + (e.get('ty') or '')):
+                a, b2 = ev(e['args'][0], env), ev(e['args'][1], env)
+                if isinstance(a, int) and isinstance(b2, int) and b2:
+                    return Fr(a, b2)
+            if c.endswith(('Zero>::zero', 'Zero::zero')):
+                return Fr(0)
+            if c.endswith(('One>::one', 'One::one')):
+                return Fr(1)
+        if k == 'MethodCall':
+            nm = e['name']
+            if nm in ('into', 'clone', 'to_rational') and not e['args']:
+                v2 = ev(e['recv'], env)
+                if nm == 'into' and isinstance(v2, Fr) and 'Phase' in (e.get('ty') or ''):
+                    # From<Rational64> for Phase is Phase::new: the value is re-normalised (inside normalize itself this is the recursive call)
+                    if -1 < v2 <= 1:
+                        return ('phase', v2)
+                    if depth < 3 and 'phase::Phase::normalize' in facts['fns']:
+                        return pred_eval(facts, 'phase::Phase::normalize', v2, depth + 1)
+                    raise _NoPred('into() of an out-of-range rational')
+                return v2[1] if isinstance(v2, tuple) and nm == 'to_rational' else v2
+            recv = ev(e['recv'], env)
+            if isinstance(recv, tuple) and recv[0] == 'phase':
+                c = e.get('callee') or ''
+                cands = [c] + [k2 for k2 in facts['fns'] if k2.endswith('::' + nm) and 'Phase' in k2]
+                for k2 in cands:
+                    if k2 in facts['fns'] and depth < 3 and (facts['fns'][k2].get('output') == 'bool' or k2.endswith('::normalize')) and len([p_ for p_ in facts['fns'][k2]['params'] if p_.get('k') == 'Bind']) == 1:
+                        return pred_eval(facts, k2, recv[1], depth + 1)
+                raise _NoPred('method %s on a phase' % nm)
+            if isinstance(recv, Fr):
+                import math
+                if nm == 'round' and not e['args']:      # num::Ratio::round: half away from zero
+                    fl = math.floor(recv)
+                    fr = recv - fl
+                    if fr > Fr(1, 2) or (fr == Fr(1, 2) and recv > 0):
+                        return Fr(fl + 1)
+                    return Fr(fl)
+                if nm in ('floor', 'ceil', 'trunc') and not e['args']:
+                    return Fr({'floor': math.floor, 'ceil': math.ceil, 'trunc': math.trunc}[nm](recv))
+                if nm == 'to_integer' and not e['args']:
+                    return math.trunc(recv)
+                if nm == 'denom':
+                    return recv.denominator
+                if nm == 'numer':
+                    return recv.numerator
+                if nm == 'is_zero':
+                    return recv == 0
+                if nm == 'is_one':
+                    return recv == 1
+                if nm == 'is_integer':
+                    return recv.denominator == 1
+                if nm == 'abs':
+                    return abs(recv)
+            if isinstance(recv, int) and not isinstance(recv, bool):
+                if nm == 'rem_euclid' and len(e['args']) == 1:
+                    m_ = ev(e['args'][0], env)
+                    if not m_:
+                        raise _NoPred('rem_euclid by zero')
+                    return recv % abs(m_)
+                if nm == 'abs':
+                    return abs(recv)
+                if nm == 'is_zero':
+                    return recv == 0
+                if nm == 'is_one':
+                    return recv == 1
+                if nm == 'pow' and len(e['args']) == 1:
+                    return recv ** ev(e['args'][0], env)
+        if k == 'Struct' and (e['ctor'].get('path') or '').endswith('Phase'):
+            d_ = dict(e['fields'])
+            if 'r' in d_:
+                return ('phase', ev(d_['r'], env))
+        if k in ('Assign', 'AssignOp'):
+            tl = hir.local(hir.strip(e['l']))
+            if not tl:
+                raise _NoPred('assignment to a non-local')
+            rv = ev(e['r'], env)
+            if k == 'Assign':
+                env[tl[1]] = rv
+            else:
+                cur = env[tl[1]]
+                env[tl[1]] = {'AddAssign': lambda: cur + rv, 'SubAssign': lambda: cur - rv, 'MulAssign': lambda: cur * rv}.get(e['op'], lambda: (_ for _ in ()).throw(_NoPred(e['op'])))()
+            return None
+        if k == 'If':
+            c = ev(e['cond'], env)
+            br = e['then'] if c else e.get('else')
+            if br is None:
+                return None
+            return block(hir.stmts_of(br), env, share=True)
+        if k == 'Block':
+            return block(hir.stmts_of(e), env)
+        if k == 'Ret':
+            raise _Ret(ev(e['e'], env) if e.get('e') else None)
+        if k == 'Match' and e['arms'] and all(hir.lit_bool(hir.strip(a['body'])) is not None for a in e['arms']):
+            raise _NoPred('match')
+        raise _NoPred(hir.pp(e)[:40])
+
+    def block(st, env, share=False):
+        env = env if share else dict(env)
+        val = None
+        for s_ in st:
+            if s_.get('k') == 'Let':
+                if s_['pat'].get('k') != 'Bind' or s_.get('init') is None:
+                    raise _NoPred('pattern let')
+                env[s_['pat']['id']] = ev(s_['init'], env)
+                val = None
+            else:
+                val = ev(s_, env)
+        return val
+    env0 = {}
+    for p_ in f['params']:
+        if p_.get('k') == 'Bind' and p_['name'] != 'self':
+            env0[p_['id']] = r          # a single value parameter (Phase::new(r)): the rational itself
+    try:
+        return block(hir.stmts_of(f['hir']), env0)
+    except _Ret as rr:
+        return rr.v
+
+
+PRED_DOMAIN = sorted(set(Fr(n, d) for d in (1, 2, 3, 4, 5, 8) for n in range(-d + 1, d + 1)))
+PRED_SEM = {
+    'phase::Phase::is_clifford': lambda r: r.denominator <= 2,
+    'phase::Phase::is_t': lambda r: r.denominator == 4,
+    'phase::Phase::is_proper_clifford': lambda r: r in (Fr(1, 2), Fr(-1, 2)),
+    'phase::Phase::is_pauli': lambda r: r in (Fr(0), Fr(1)),
+    '<phase::Phase as num::Zero>::is_zero': lambda r: r == 0,
+    '<phase::Phase as num::One>::is_one': lambda r: r == 1,
+}
+
+
 def run(ck):
     facts = ck.facts
     ck.decided('D1 Phase is canonical by construction: private field, the only literal is in Phase::new and flows into normalize, no field writes',
@@ -172,11 +363,40 @@ def run(ck):
         ck.fn(k)
     # D2
     paths = d2_normalize(facts)
-    for i, p in enumerate(paths):
-        ck.ob('E3-range', 'phase::Phase::normalize/path-%d' % i, p['ok'], ck.site('phase::Phase::normalize'),
-              'cannot prove -denom < num <= denom on return path %s returning `%s`; facts: %s' % (p['path'], p['returns'], p['facts']),
-              sample={k: str(v) for k, v in p.items()})
-    ck.floor('E3-range', len(paths), 2)
+    proved_all = bool(paths) and all(p['ok'] for p in paths)
+    # finite-domain cross-check / fallback: normalize is interpreted on every n/d with d in 1..6 and |n| <= 6d; the result must lie in (-1, 1] and differ from the input by an even integer
+    witness = None
+    evaluable = True
+    n_eval = 0
+    try:
+        for d_ in range(1, 7):
+            for n_ in range(-6 * d_, 6 * d_ + 1):
+                r_ = Fr(n_, d_)
+                out_ = pred_eval(facts, 'phase::Phase::normalize', r_)
+                n_eval += 1
+                if not (isinstance(out_, tuple) and out_[0] == 'phase' and isinstance(out_[1], Fr)):
+                    raise _NoPred('normalize does not yield a Phase value')
+                v_ = out_[1]
+                if not (-1 < v_ <= 1) or ((v_ - r_) / 2).denominator != 1:
+                    witness = (r_, v_)
+                    break
+            if witness:
+                break
+    except (_NoPred, KeyError, TypeError, ZeroDivisionError) as ex:
+        evaluable = False
+        ev_why = str(ex)
+    if witness:
+        ck.ob('E3-range', 'phase::Phase::normalize/representative', False, ck.site('phase::Phase::normalize'),
+              'normalize(%s) = %s, which is not the representative in (-1, 1] of the same class modulo 2' % witness)
+    elif proved_all:
+        for i, p in enumerate(paths):
+            ck.ob('E3-range', 'phase::Phase::normalize/path-%d' % i, True, ck.site('phase::Phase::normalize'), '', sample={k: str(v) for k, v in p.items()})
+        ck.ob('E3-range', 'phase::Phase::normalize/representative', evaluable, ck.site('phase::Phase::normalize'), '', sample={'inputs_evaluated': n_eval}) if evaluable else None
+    elif evaluable:
+        # the abstract interpreter does not understand this shape of the code; the finite-domain interpretation found no counterexample
+        ck.ob('E3-range', 'phase::Phase::normalize/representative', True, ck.site('phase::Phase::normalize'), '', sample={'inputs_evaluated': n_eval, 'note': 'range not proved for all inputs by the template domain on this code shape; exhaustive for d <= 6, |n| <= 6d'})
+    else:
+        ck.ob3('E3-range', 'phase::Phase::normalize/representative', None, ck.site('phase::Phase::normalize'), 'normalize is neither provable in the template domain nor evaluable on integers (%s)' % ev_why)
     # D3
     impls = rops.op_impls(facts, lambda s: s == PHASE)
     for key, op, is_assign, _s in impls:
@@ -192,13 +412,18 @@ def run(ck):
     # D4
     for key, ref in PRED_REF.items():
         f = ck.fn(key)
-        got = pred_descriptor(f)
-        ck.ob('R-TABLE-pred', key, got == ref, ck.site(key),
-              'classification predicate computes %s, reference is %s' % (_show(got), _show(ref)), sample={'descriptor': _show(got)})
-        if got and got[0] == 'in':
-            for c in got[1]:
-                ck.ob('R-TABLE-pred', key + '/canonical-constant/%s' % c, -1 < c <= 1, ck.site(key),
-                      'compares the stored phase with %s, which is outside (-1,1] and can never match a canonical phase' % c)
+        # the predicate is evaluated, by interpreting its body, on every canonical phase with denominator 1, 2, 3, 4, 5, 8 and compared with the reference predicate
+        bad = None
+        try:
+            for r_ in PRED_DOMAIN:
+                got_v = pred_eval(facts, key, r_)
+                if bool(got_v) != bool(PRED_SEM[key](r_)):
+                    bad = (r_, got_v)
+                    break
+            ck.ob('R-TABLE-pred', key, bad is None, ck.site(key), ('the predicate answers %s for the phase %s, the reference classification (%s) answers %s' % (bad[1], bad[0], _show(ref), not bool(bad[1]))) if bad else '',
+                  sample={'phases_evaluated': len(PRED_DOMAIN)})
+        except _NoPred as ex:
+            ck.ob3('R-TABLE-pred', key, None, ck.site(key), 'the predicate body is not evaluable by the rule (%s)' % ex)
     # D5: exact hits of limit_denominator — a fraction whose denominator is within the bound is returned unchanged
     from .. import paths
     lk = 'phase::utils::limit_denominator'
